@@ -212,6 +212,22 @@ def tlc(module, cfg=None, env=None, workers=None, extra=(), timeout=900, cwd=SPE
     return res
 
 
+def tlaps(module, workdir, timeout=600):
+    """Check spec/proofs/<module>.tla with the TLA+ proof system; returns (all_proved, n_obligations, output)."""
+    d = tempfile.mkdtemp(prefix="tlaps-", dir=workdir)
+    try:
+        shutil.copy(os.path.join(SPEC, "proofs", module + ".tla"), d)
+        try:
+            r = subprocess.run(["tlapm", "--threads", "4", "-I", SPEC, module + ".tla"], cwd=d, stdout=subprocess.PIPE, stderr=subprocess.STDOUT, text=True, timeout=timeout)
+            out = r.stdout
+        except subprocess.TimeoutExpired as ex:
+            out = "TIMEOUT"
+        m = re.search(r"All (\d+) obligations? proved", out)
+        return (m is not None), (int(m.group(1)) if m else 0), out
+    finally:
+        shutil.rmtree(d, ignore_errors=True)
+
+
 def unescape_csv_json_line(line):
     line = line.strip()
     if line.startswith('"') and line.endswith('"'):
